@@ -126,7 +126,7 @@ Qed.
 (* ------------------------------------------------------------------ the JSON document *)
 Lemma step_json_lint c r d :
   json_lint (step c r d) =
-  json_lint r ++ (if json c && negb (sev_eqb (effective c d) SevIgnore) then [d] else []).
+  json_lint r ++ (if json c && negb (sev_eqb (effective c d) SevIgnore) then [(fst d, effective c d)] else []).
 Proof.
   unfold step, print_linter_error.
   destruct (effective c d); cbn [sev_eqb negb andb];
@@ -139,20 +139,29 @@ Qed.
 
 Lemma fold_json_lint c ds : forall r,
   json_lint (fold_left (step c) ds r) =
-  json_lint r ++ (if json c then filter (fun d => negb (sev_eqb (effective c d) SevIgnore)) ds else []).
+  json_lint r ++ (if json c then listed c ds else []).
 Proof.
-  induction ds as [|d ds IH]; intros r; cbn [fold_left filter].
+  unfold listed. induction ds as [|d ds IH]; intros r; cbn [fold_left filter map].
   - destruct (json c); rewrite app_nil_r; reflexivity.
   - rewrite IH, step_json_lint. destruct (json c); cbn [andb].
-    + destruct (negb (sev_eqb (effective c d) SevIgnore)); rewrite <- app_assoc; reflexivity.
+    + destruct (negb (sev_eqb (effective c d) SevIgnore)); cbn [map]; rewrite <- app_assoc; reflexivity.
     + rewrite !app_nil_r. reflexivity.
 Qed.
 
+(* the entries of the document, counted by their listed severity, give the document's counts *)
+Lemma listed_count c s ds : s <> SevIgnore ->
+  List.length (filter (fun e => sev_eqb (snd e) s) (listed c ds)) = count c s ds.
+Proof.
+  intros Hs. unfold listed, count. induction ds as [|d ds IH]; cbn [filter map length]; auto.
+  destruct (effective c d) eqn:E; cbn [sev_eqb negb filter map snd]; destruct s; cbn [sev_eqb length];
+    try contradiction; rewrite ?E; cbn [sev_eqb length]; auto.
+Qed.
+
 Lemma count_partition c ds :
-  List.length (filter (fun d => negb (sev_eqb (effective c d) SevIgnore)) ds)
+  List.length (listed c ds)
   = count c SevError ds + count c SevWarning ds + count c SevInfo ds.
 Proof.
-  unfold count. induction ds as [|d ds IH]; cbn [filter length]; auto.
+  unfold listed. rewrite map_length. unfold count. induction ds as [|d ds IH]; cbn [filter length]; auto.
   destruct (effective c d); cbn [sev_eqb negb length]; lia.
 Qed.
 
@@ -163,8 +172,10 @@ Theorem json_doc_spec c x :
   (json c = true -> parse_error_main x = false -> parse_error_included x = false ->
    exists res, doc (run_lint c x) = Some res /\
      summary (run_lint c x) = Some (res_errors res, res_warnings res, res_infos res) /\
-     res_lint res = filter (fun d => negb (sev_eqb (effective c d) SevIgnore)) (diags x) /\
+     res_lint res = listed c (diags x) /\
      List.length (res_lint res) = res_errors res + res_warnings res + res_infos res /\
+     (forall s, s <> SevIgnore ->
+        List.length (filter (fun e => sev_eqb (snd e) s) (res_lint res)) = count c s (diags x)) /\
      res_parse res = 0) /\
   (json c = true -> parse_error_main x = true \/ parse_error_included x = true ->
    exists res, doc (run_lint c x) = Some res /\ res_parse res = 1 /\ res_lint res = [] /\
@@ -178,6 +189,7 @@ Proof.
     rewrite (fold_json_lint c (diags x) runner0), J. cbn [json_lint runner0 app].
     destruct (fold_counts c (diags x) runner0) as (A & B & C). rewrite A, B, C. cbn [errors warnings infos runner0 Nat.add].
     repeat split; auto. apply count_partition.
+    { intros s Hs. apply listed_count. exact Hs. }
     assert (P : forall ds r, json_parse (fold_left (step c) ds r) = json_parse r).
     { induction ds as [|d ds IH]; intros r; cbn [fold_left]; auto. rewrite IH.
       unfold step, print_linter_error. destruct (effective c d); cbn [sev_eqb negb andb];
